@@ -47,7 +47,14 @@ EntriesOf(r) == IF r.op = "alloc_put"
 CU23(r) == IF r.v >= 23 THEN CU ELSE ""
 UN23(r) == IF r.v >= 23 THEN UNDEF ELSE ""
 
-NoLoc == [pgen |-> <<>>, cgen |-> <<>>, created |-> {}, i |-> 1, rows |-> {}]
+NoLoc == [pgen |-> <<>>, cgen |-> <<>>, cinc |-> <<>>, created |-> {}, i |-> 1, rows |-> {}]
+
+\* Consumers are rows with an identifier of their own: one that was removed and made anew is
+\* another row, although it passes through the same generations again.  The code's
+\* compare-and-swap on a consumer names the row it read (id and generation), and DELETE removes
+\* the allocation rows it read.  Inc(c) says which incarnation of c the database holds; it is
+\* counted from the commits (history only, no new variable).
+Inc(c) == Cardinality({n \in DOMAIN hist : c \notin DOMAIN hist[n].pre.cons /\ c \in DOMAIN hist[n].post.cons})
 
 InitWith(R, D) ==
   /\ reqs = R /\ db0 = D
@@ -108,7 +115,8 @@ Start(k) ==
      ELSE IF r.op = "alloc_del" THEN
         \* DELETE /allocations/{c}: read the rows; delete them; delete the consumer if it has no rows
         IF r.c \in DOMAIN db.alloc /\ r.c \in DOMAIN db.cons
-        THEN /\ loc' = [loc EXCEPT ![k].rows = {r.c}, ![k].cgen = [c \in {r.c} |-> db.cons[r.c].gen]]
+        THEN /\ loc' = [loc EXCEPT ![k].rows = {r.c}, ![k].cgen = [c \in {r.c} |-> db.cons[r.c].gen],
+                                   ![k].cinc = [c \in {r.c} |-> Inc(r.c)]]
              /\ pc' = [pc EXCEPT ![k] = "delrows"]
              /\ UNCHANGED <<db, resp, hist>>
         ELSE Finish(k, Resp(404, UN23(r), NoBody)) /\ UNCHANGED <<db, loc, hist>>
@@ -125,7 +133,7 @@ DelRows(k) ==
   LET r == reqs[k]
       \* every allocation write bumps the consumer generation, so an unchanged
       \* generation means that the rows read are still the consumer's rows
-      d1 == IF r.c \in DOMAIN db.cons /\ db.cons[r.c].gen = loc[k].cgen[r.c]
+      d1 == IF r.c \in DOMAIN db.cons /\ db.cons[r.c].gen = loc[k].cgen[r.c] /\ Inc(r.c) = loc[k].cinc[r.c]
             THEN [db EXCEPT !.alloc = Without(@, {r.c})] ELSE db
       d2 == IF r.c \in DOMAIN d1.cons /\ r.c \notin DOMAIN d1.alloc
             THEN [d1 EXCEPT !.cons = Without(@, {r.c})] ELSE d1
@@ -200,6 +208,7 @@ ConsGet(k) ==
        IF e.c \in DOMAIN db.cons THEN
           IF r.v >= 28 /\ db.cons[e.c].gen # e.cgen THEN FailAlloc(k, 409, CU23(r)) /\ UNCHANGED loc
           ELSE /\ loc' = [loc EXCEPT ![k].cgen = With(@, e.c, db.cons[e.c].gen),
+                                     ![k].cinc = With(@, e.c, Inc(e.c)),
                                      ![k].i = IF @ < Len(es) THEN @ + 1 ELSE @]
                /\ pc' = [pc EXCEPT ![k] = NextCons(k)]
                /\ UNCHANGED resp
@@ -219,7 +228,8 @@ ConsIns(k) ==
   /\ IF e.c \notin DOMAIN db.cons THEN
         /\ Commit(k, [db EXCEPT !.cons = With(@, e.c, [project |-> EProject(r, e), user |-> EUser(r, e),
                                                      ctype |-> EType(r, e), gen |-> 0])])
-        /\ loc' = [loc EXCEPT ![k] = [adv EXCEPT !.cgen = With(@, e.c, 0), !.created = @ \cup {e.c}]]
+        /\ loc' = [loc EXCEPT ![k] = [adv EXCEPT !.cgen = With(@, e.c, 0), !.cinc = With(@, e.c, Inc(e.c) + 1),
+                                                   !.created = @ \cup {e.c}]]
         /\ pc' = [pc EXCEPT ![k] = NextCons(k)]
         /\ UNCHANGED resp
      ELSE IF r.v >= 28 /\ "F2" \in FIXES THEN
@@ -228,7 +238,7 @@ ConsIns(k) ==
      ELSE
         \* original: adopt the row with its current generation (and overwrite its type)
         /\ Commit(k, [db EXCEPT !.cons[e.c].ctype = EType(r, e)])
-        /\ loc' = [loc EXCEPT ![k] = [adv EXCEPT !.cgen = With(@, e.c, db.cons[e.c].gen)]]
+        /\ loc' = [loc EXCEPT ![k] = [adv EXCEPT !.cgen = With(@, e.c, db.cons[e.c].gen), !.cinc = With(@, e.c, Inc(e.c))]]
         /\ pc' = [pc EXCEPT ![k] = NextCons(k)]
         /\ UNCHANGED resp
 
@@ -254,7 +264,10 @@ ClearRead(k) ==
                ![k].rows = {c \in cl : c \in DOMAIN db.alloc /\ c \in DOMAIN db.cons},
                ![k].cgen = IF "F13" \in FIXES THEN @
                            ELSE [c \in DOMAIN @ |-> IF c \in cl /\ c \in DOMAIN db.cons /\ c \in DOMAIN db.alloc
-                                                    THEN db.cons[c].gen ELSE @[c]]]
+                                                    THEN db.cons[c].gen ELSE @[c]],
+               ![k].cinc = IF "F13" \in FIXES THEN @
+                           ELSE [c \in DOMAIN @ |-> IF c \in cl /\ c \in DOMAIN db.cons /\ c \in DOMAIN db.alloc
+                                                    THEN Inc(c) ELSE @[c]]]
   /\ pc' = [pc EXCEPT ![k] = "main"]
   /\ UNCHANGED <<db, resp, hist>>
 
@@ -277,7 +290,8 @@ AllocMain(k) ==
       r2 == IF r.op = "alloc_put" THEN (IF es2 = <<>> THEN r ELSE [r EXCEPT !.cgen = es2[1].cgen]) ELSE [r EXCEPT !.entries = es2]
       \* reshaper: carried provider generations as read in ReshapeRead
       a == IF es2 = <<>> /\ r.op # "reshape" THEN [s |-> db, resp |-> Resp(204, "", NoBody)] ELSE Apply(db, r2)
-      staleCons == \E c \in vis : IF c \notin DOMAIN db.cons THEN TRUE ELSE db.cons[c].gen # loc[k].cgen[c]
+      staleCons == \E c \in vis : IF c \notin DOMAIN db.cons THEN TRUE
+                                   ELSE db.cons[c].gen # loc[k].cgen[c] \/ Inc(c) # loc[k].cinc[c]
       staleInv == r.op = "reshape" /\ \E n \in DOMAIN r.invs : db.rp[r.invs[n].u].gen # r.invs[n].gen
       staleProv == \E u \in DOMAIN loc[k].pgen : u \in Providers(db) /\ db.rp[u].gen # loc[k].pgen[u]
       goneProv == \E u \in DOMAIN loc[k].pgen : u \notin Providers(db)
